@@ -16,7 +16,7 @@ REQUIRED_THEOREMS = ['nearest', 'nearest_desc', 'bounds_cell', 'bounds_cell_desc
                      'model_nearest', 'model_bounds']
 RULE = ('strictly monotonic coordinates, ascending and descending, 2..7 cells, three bounds representations '
         '(none, 1-D edges, n x 2), methods nearest/bounds/exact, clean mask/none, bounds ignore/warn/error, '
-        'left/right None/nan/value; queries include values 2^-30 beside every node/edge; stream "pow2": power-of-two spacings (np.interp exact) with queries at '
+        'left/right None/nan/value; coordinate variables of type float64, float32 and integer; datetime queries (time2idx on an "hours since" coordinate: naive, UTC and +05:30 / -05:00 / +01:00 datetimes); queries include values 2^-30 beside every node/edge; stream "pow2": power-of-two spacings (np.interp exact) with queries at '
         'centres, edges, exact midpoints (ties), interior and outside; stream "margin": arbitrary dyadic '
         'spacings with queries at nodes/edges exactly or at least 1/16 cell away from every decision boundary; '
         'non-trivial = at least one query strictly inside the domain and not on a node')
@@ -108,8 +108,24 @@ def _case(rng):
             right = 'none'
     elif fill == 'val':
         left, right = '-7', '-9'
+    # dtype of the coordinate variable: float64, float32 (all generated values are exact in float32) or integer
+    # (everything is scaled by 4 so that coordinates and edges are whole numbers); queries stay float64
+    cdtype = rng.choice(['d', 'd', 'd', 'f', 'i'])
+    tz = None
+    if rng.random() < 0.15:
+        # datetime front end: the coordinate is "hours since 2000-01-01", queries are datetimes (naive, UTC or with
+        # a non-zero UTC offset) at multiples of 1/16 hour, which date2num converts exactly
+        tz = rng.choice(['naive', 'utc', '+0530', '-0500', '+0100'])
+        vals = [Fraction(round(v * 16), 16) for v in vals]
+        cdtype = 'd'
+    if cdtype == 'i':
+        c, vals = [x * 4 for x in c], [x * 4 for x in vals]
+        if ekind != 'none':
+            e = [x * 4 for x in e]
+            edges = ('e1:' + lib.show_list(e, lib.show_rat)) if ekind == 'e1' else \
+                ('b2:' + lib.show_rows([[e[i], e[i + 1]] for i in range(n)], lib.show_rat))
     return dict(stream=stream, method=method, clean=rng.choice(['mask', 'mask', 'none']),
-                bmode=rng.choice(['ignore', 'warn', 'error']), left=left, right=right,
+                bmode=rng.choice(['ignore', 'warn', 'error']), left=left, right=right, cdtype=cdtype, tz=tz,
                 coords=[lib.show_rat(x) for x in c], edges=edges, vals=[lib.show_rat(x) for x in vals])
 
 
@@ -127,8 +143,10 @@ def _mkfile(case):
     c = [float(Fraction(x)) for x in case['coords']]
     f = pnc.PseudoNetCDFFile()
     f.createDimension('x', len(c))
-    v = f.createVariable('x', 'd', ('x',))
+    v = f.createVariable('x', case.get('cdtype', 'd'), ('x',))
     v[:] = c
+    if case.get('tz'):
+        v.units = 'hours since 2000-01-01 00:00:00'
     e = case['edges']
     if e.startswith('e1:'):
         ed = [float(Fraction(x)) for x in e[3:].split(',')]
@@ -143,13 +161,35 @@ def _mkfile(case):
     return f
 
 
+def _datetimes(case):
+    """the query instants as datetime objects in the case's time zone (independent of date2num)"""
+    import datetime as dt
+    out = []
+    for x in case['vals']:
+        secs = Fraction(x) * 3600
+        assert secs.denominator == 1
+        t = dt.datetime(2000, 1, 1, tzinfo=dt.timezone.utc) + dt.timedelta(seconds=int(secs))
+        tz = case['tz']
+        if tz == 'naive':
+            t = t.replace(tzinfo=None)
+        elif tz != 'utc':
+            sign = 1 if tz[0] == '+' else -1
+            t = t.astimezone(dt.timezone(sign * dt.timedelta(hours=int(tz[1:3]), minutes=int(tz[3:5]))))
+        out.append(t)
+    return out
+
+
 def impl(case):
     f = _mkfile(case)
     vals = np.array([float(Fraction(x)) for x in case['vals']])
     with lib.pnc_warnings() as w:
         try:
-            r = f.val2idx('x', vals, method=case['method'], bounds=case['bmode'], left=_fill(case['left']),
-                          right=_fill(case['right']), clean=case['clean'])
+            if case.get('tz'):
+                r = f.time2idx(_datetimes(case), dim='x', method=case['method'], bounds=case['bmode'],
+                               left=_fill(case['left']), right=_fill(case['right']), clean=case['clean'])
+            else:
+                r = f.val2idx('x', vals, method=case['method'], bounds=case['bmode'], left=_fill(case['left']),
+                              right=_fill(case['right']), clean=case['clean'])
         except Exception as e:
             return dict(err=type(e).__name__, msg=str(e)[:80])
     warned = any('out of bounds' in x for x in w.msgs)
